@@ -27,7 +27,7 @@ ASSUMPTIONS = [
     'the leak clause recognises owner-bound watchers structurally (functools.partial with a function= keyword bound to the '
     'owner); unrecognisable callbacks are counted, not judged',
 ]
-REQUIRED = {'ops_judged': 3000, 'replacements': 1000, 'leaf_sets': 1000, 'detached_leaf_sets': 200, 'leak_checks': 2000, 'slot_sets': 300, 'falsy_object_cases': 100}
+REQUIRED = {'ops_judged': 3000, 'replacements': 1000, 'leaf_sets': 1000, 'detached_leaf_sets': 200, 'leak_checks': 2000, 'slot_sets': 300, 'falsy_object_cases': 100, 'on_init_builders': 60}
 
 _st = {}
 _n = [0]
@@ -94,6 +94,26 @@ def run_case(idx, rng, P, rep):
         return param.depends(*deps, watch=True)(body)
     for mi, deps in enumerate(mspecs):
         ns[f'm{mi}'] = make(f'm{mi}', deps)
+    builder = [None]
+    if rng.random() < 0.25:
+        # a method that also runs at construction (on_init) and attaches the sub-object tree there; declared before or
+        # after the methods whose paths go through that tree
+        bname = f'm{len(mspecs)}'
+
+        def build(self):
+            self.__dict__.setdefault('_log', []).append(bname)
+            if not self.__dict__.get('_built') and builder[0] is not None:
+                self.__dict__['_built'] = True
+                self.a = builder[0]()
+        build.__name__ = bname
+        bm = param.depends('p', watch=True, on_init=True)(build)
+        mspecs.append(['p'])
+        if rng.random() < 0.5:
+            ns = dict([(k, v) for k, v in ns.items() if not k.startswith('m')] + [(bname, bm)] +
+                      [(k, v) for k, v in ns.items() if k.startswith('m')])
+        else:
+            ns[bname] = bm
+        rep.count('on_init_builders')
     if falsy and rng.random() < 0.5:
         ns['__bool__'] = lambda self: False
     Top = type(f'Top{idx}', (param.Parameterized,), ns)
@@ -110,6 +130,7 @@ def run_case(idx, rng, P, rep):
                            {d[2:] for d in (differ or ()) if d.startswith('b.')})
         return n
 
+    builder[0] = lambda: new_node(rng.randint(1, 3))
     top = Top(a=new_node(rng.randint(1, 3)), c=Leaf(x=val(), y=val())) if rng.random() < 0.8 else Top()
     ever = []      # every object ever attached anywhere
 
